@@ -340,11 +340,12 @@ RoleAt(c, j) == IF j <= Emit(c) THEN c.roles[j] ELSE "-"
 Seg(c, i) == {j \in (i + 1)..Emit(c) : \A x \in (i + 1)..j : ~IsCb(c.roles[x])}
 UDF(c, i) == {j \in Seg(c, i) : c.roles[j] = "ud"}
 DNF(c, i) == {j \in Seg(c, i) : c.roles[j] = "dn"}
-\* where the statement speaks: the user_data pointer directly follows the callback; the destroy-notify
-\* directly follows the callback or its user_data (the conventional triple)
-ClosureSites(c) == {i \in 1..Emit(c) : IsCb(c.roles[i]) /\ RoleAt(c, i + 1) = "ud"}
-DestroySites(c) == {i \in 1..Emit(c) : IsCb(c.roles[i]) /\
-                        (RoleAt(c, i + 1) = "dn" \/ (RoleAt(c, i + 1) = "ud" /\ RoleAt(c, i + 2) = "dn"))}
+\* where the statement speaks: "a user_data pointer FOLLOWING a callback", "a destroy-notify FOLLOWING it":
+\* anywhere in the stretch of parameters behind the callback up to the next callback, in either order
+\* (foo_add_full (FooFunc func, GDestroyNotify notify, gpointer user_data) is as conventional as the
+\* func, user_data, notify triple)
+ClosureSites(c) == {i \in 1..Emit(c) : IsCb(c.roles[i]) /\ UDF(c, i) # {}}
+DestroySites(c) == {i \in 1..Emit(c) : IsCb(c.roles[i]) /\ DNF(c, i) # {}}
 AsyncSites(c) == {i \in 1..Emit(c) : c.roles[i] = "as" /\ DNF(c, i) = {}}
 PtrSites(c) == {i \in 1..Emit(c) : c.roles[i] \in {"ud", "pt"}}
 
